@@ -479,7 +479,7 @@ pub fn end_script(w: &mut World, rng: &mut Rng, a1_before: usize) {
     for i in live {
         run_op(w, &format!("drop {}", i));
     }
-    println!("balance align1_live_delta={} violations={}", ledger::live_blocks_align1() as i64 - a1_before as i64 - w.leaked as i64, ledger::VIOLATIONS.load(Ordering::SeqCst));
+    println!("balance align1_live_delta={} violations={}", ledger::A1_TRACKED_LIVE.load(Ordering::SeqCst) as i64 - a1_before as i64, ledger::VIOLATIONS.load(Ordering::SeqCst));
 }
 
 // ------------------------------------------------------------------------------------------
@@ -646,7 +646,7 @@ pub fn run(args: &[String], parity: &str, profile: &str) -> i32 {
     match args.first().map(|s| s.as_str()) {
         Some("replay") => {
             let text = std::fs::read_to_string(&args[1]).unwrap_or_default();
-            let a1 = ledger::live_blocks_align1();
+            let a1 = ledger::A1_TRACKED_LIVE.load(Ordering::SeqCst);
             let mut w = begin_script(parity, profile);
             for line in text.lines() {
                 if let Some(o) = line.strip_prefix("op ") {
@@ -664,14 +664,14 @@ pub fn run(args: &[String], parity: &str, profile: &str) -> i32 {
             for (_name, setup) in SETUPS {
                 // number of candidate ops is taken from a probe world
                 let mut probe = begin_script(parity, profile);
-                let a1 = ledger::live_blocks_align1();
+                let a1 = ledger::A1_TRACKED_LIVE.load(Ordering::SeqCst);
                 for s in *setup {
                     run_op(&mut probe, s);
                 }
                 let cands = ops_for(&probe, 0, &mut rng, true);
                 end_script(&mut probe, &mut rng, a1);
                 for c in &cands {
-                    let a1 = ledger::live_blocks_align1();
+                    let a1 = ledger::A1_TRACKED_LIVE.load(Ordering::SeqCst);
                     let mut w = begin_script(parity, profile);
                     for s in *setup {
                         run_op(&mut w, s);
@@ -694,7 +694,7 @@ pub fn run(args: &[String], parity: &str, profile: &str) -> i32 {
             let walks = args.first().and_then(|s| s.parse().ok()).unwrap_or(if thorough { 20000 } else { 1500 });
             let maxlen = if thorough { 120 } else { 40 };
             for _ in 0..walks {
-                let a1 = ledger::live_blocks_align1();
+                let a1 = ledger::A1_TRACKED_LIVE.load(Ordering::SeqCst);
                 let mut w = begin_script(parity, profile);
                 let n = rng.range(3, maxlen);
                 // start from one of the representations half of the time
